@@ -69,7 +69,9 @@ def run_one(c):
         changed = 0
         # parameters are declared a few lines above the first body line
         for i in range(max(0, c["lo"] - 12), min(len(src), c["hi"] + 1)):
-            line2 = pat.sub(new, src[i])
+            # never inside string literals (a key such as "min depth" is data, not a name)
+            parts = re.split(r'("(?:[^"\\]|\\.)*")', src[i])
+            line2 = "".join(pt if (j_ % 2 == 1) else pat.sub(new, pt) for j_, pt in enumerate(parts))
             if line2 != src[i]:
                 changed += 1
                 src[i] = line2
